@@ -173,8 +173,19 @@ def eval_sized(test, sizes):
     returns True/False, or None if the test involves anything else"""
     class R(ast.NodeTransformer):
         def visit_Call(self, n):
-            if isinstance(n.func, ast.Name) and n.func.id == "len" and len(n.args) == 1 and isinstance(n.args[0], ast.Name) and n.args[0].id in sizes:
-                return ast.Constant(sizes[n.args[0].id])
+            if isinstance(n.func, ast.Name) and n.func.id == "len" and len(n.args) == 1 and ast.unparse(n.args[0]) in sizes:
+                return ast.Constant(sizes[ast.unparse(n.args[0])])
+            return self.generic_visit(n)
+
+        def visit_Attribute(self, n):
+            if ast.unparse(n) in sizes:
+                return ast.Constant(sizes[ast.unparse(n)])
+            return self.generic_visit(n)
+
+        def visit_Compare(self, n):
+            # `x.body == []` / `x.body != []`: emptiness of a sized container
+            if len(n.ops) == 1 and isinstance(n.ops[0], (ast.Eq, ast.NotEq)) and ast.unparse(n.left) in sizes and isinstance(n.comparators[0], (ast.List, ast.Tuple)) and not n.comparators[0].elts:
+                return ast.Constant((sizes[ast.unparse(n.left)] == 0) == isinstance(n.ops[0], ast.Eq))
             return self.generic_visit(n)
 
         def visit_Name(self, n):
@@ -184,9 +195,16 @@ def eval_sized(test, sizes):
 
     e = R().visit(ast.parse(ast.unparse(test), mode="eval").body)
     ast.fix_missing_locations(e)
-    if any(isinstance(x, (ast.Name, ast.Call, ast.Attribute, ast.Subscript)) for x in ast.walk(e)):
-        return None
+    safe = {"min": min, "max": max, "abs": abs, "sum": sum, "any": any, "all": all, "bool": bool, "int": int}
+    callee_names = {id(x.func) for x in ast.walk(e) if isinstance(x, ast.Call) and isinstance(x.func, ast.Name) and x.func.id in safe}
+    for x in ast.walk(e):
+        if isinstance(x, ast.Call) and id(x.func) not in callee_names:
+            return None
+        if isinstance(x, ast.Name) and id(x) not in callee_names:
+            return None
+        if isinstance(x, (ast.Attribute, ast.Subscript)):
+            return None
     try:
-        return bool(eval(compile(ast.Expression(e), "<t>", "eval"), {"__builtins__": {}}))  # noqa: S307 - constant expression
+        return bool(eval(compile(ast.Expression(e), "<t>", "eval"), {"__builtins__": safe}))  # noqa: S307 - constant expression over min/max/...
     except Exception:  # noqa: BLE001
         return None
